@@ -69,6 +69,9 @@ def gen_case(rng, quick):
     return dict(theory=th, obs=dict(prDIS=proc), observables=obs, none_obs=rng.random() < 0.2)
 
 
+_EARLIER = None
+
+
 def run_case(c):
     from yadism.output import Output
     th = cards.theory_card(**c["theory"])
@@ -120,6 +123,18 @@ def run_case(c):
                 d = deep_diff(dict(out), dict(cur), "%s%d" % (label, cyc)) or deep_diff(out.theory, cur.theory, "theory") or deep_diff(out.observables, cur.observables, "observables")
                 if d:
                     return dict(format=label, cycle=cyc, difference=d)
+        # copies loaded EARLIER in this process (from another output) must not have changed by loading this one
+        global _EARLIER
+        ycopy = Output.load_yaml(io.StringIO(out.dump_yaml()))
+        p = os.path.join(tmp, "keep.tar"); out.dump_tar(p); tcopy = Output.load_tar(p)
+        if _EARLIER is not None:
+            o0, y0, t0 = _EARLIER
+            for label, c0 in (("yaml", y0), ("tar", t0)):
+                d = deep_diff(o0.theory, c0.theory, "theory") or deep_diff(o0.observables, c0.observables, "observables") or deep_diff(dict(o0), dict(c0), "earlier-%s" % label)
+                if d:
+                    _EARLIER = (out, ycopy, tcopy)
+                    return dict(format="earlier-" + label, cycle=1, difference="a copy loaded before another output was loaded has changed: " + str(d))
+        _EARLIER = (out, ycopy, tcopy)
     return None
 
 
@@ -139,7 +154,7 @@ def patrol(chk, n):
             bad.append((c, r))
     chk.patrol["roundtrips_of_real_outputs"] = dict(cases=n, failures=len(bad), distribution=dist, crashed_not_counted=crashed,
                                                     rule="real runner outputs (SF + XS mixes, PTO 0..3 with scale-variation keys in their native, non-sorted order, TMC, observables "
-                                                         "with no points, a None observable): two dump_tar/load_tar cycles, two dump_yaml/load_yaml cycles and two mixed sequences (tar-yaml-tar, yaml-tar-yaml); every field, key order, "
+                                                         "with no points, a None observable): two dump_tar/load_tar cycles, two dump_yaml/load_yaml cycles and two mixed sequences (tar-yaml-tar, yaml-tar-yaml), and the copies loaded for the previous case re-compared after this one was loaded; every field, key order, "
                                                          "value and error compared bit-for-bit, runcards compared, predictions for a toy PDF with xiR, xiF != 1 compared")
     for c, r in bad[:3]:
         what = r.get("difference") or r.get("error")
